@@ -18,6 +18,14 @@ _CMP_DUNDER = {"__eq__": ast.Eq, "__ne__": ast.NotEq, "__lt__": ast.Lt, "__le__"
 
 
 def call_method(I_, recv, name, args, kws, st, ctx, k, node):
+  if isinstance(recv, Union):
+    return I_.split(recv, st, lambda st2, r: call_method(I_, r, name, args, kws, st2, ctx, k, node))
+  if not (isinstance(recv, Ref) and name in ("append", "insert", "add", "setdefault", "get", "pop", "remove",
+                                              "index", "count", "discard", "extend", "update")):
+    for i, a in enumerate(args):
+      if isinstance(a, Union):
+        return I_.split(a, st, lambda st2, x: call_method(I_, recv, name, list(args[:i]) + [x] + list(args[i + 1:]),
+                                                          kws, st2, ctx, k, node))
   if name in _CMP_DUNDER and len(args) == 1 and not isinstance(recv, (Ref, ObjDict)):
     # int.__eq__(x) / bytes.__lt__(x): NotImplemented for foreign types
     from .models import compare, is_numlike
@@ -530,6 +538,10 @@ def bytes_method(I_, recv, name, args, kws, st, ctx, k, node):
     return k(st, r)
   if name == "join":
     def got(st2, items):
+      items = list(items)
+      for j, it in enumerate(items):
+        if isinstance(it, Union):
+          return I_.split(it, st2, lambda st3, x: got(st3, items[:j] + [x] + items[j + 1:]))
       out = SBytes([], s.is_str)
       for j, it in enumerate(items):
         if not (is_strlike(it) if s.is_str else is_byteslike(it)):
